@@ -291,10 +291,9 @@ struct Tally {
     std::map<std::string, unsigned long> kinds; std::vector<std::string> first; unsigned long runs, seqs; size_t keep;
     std::map<std::string, unsigned long> exc; unsigned long rOk, rErr, rTrunc;
     Tally() : runs(0), seqs(0), keep(12), rOk(0), rErr(0), rTrunc(0) {}
-    void mismatch(const std::string& kind, const std::string& detail) {
-        unsigned long& c = kinds[kind]; c++;
-        if (c <= 3 && first.size() < keep * 4) first.push_back("M\t" + kind + "\t" + detail);
-    }
+    // count a mismatch; true when its details should be logged (the first three of each kind)
+    bool hit(const std::string& kind) { unsigned long& c = kinds[kind]; c++; return c <= 3 && first.size() < keep * 4; }
+    void detail(const std::string& kind, const std::string& d) { first.push_back("M\t" + kind + "\t" + d); }
     void emit() {
         gOut.line("N\tseqs=" + itos(seqs) + "\truns=" + itos(runs) + "\tref_ok=" + itos(rOk) + "\tref_err=" + itos(rErr) + "\tref_trunc=" + itos(rTrunc));
         for (std::map<std::string, unsigned long>::iterator i = exc.begin(); i != exc.end(); ++i) gOut.line("X\t" + i->first + "\t" + itos(i->second));
@@ -302,6 +301,7 @@ struct Tally {
         for (size_t i = 0; i < first.size(); i++) gOut.line(first[i]);
     }
 };
+#define XV_MIS(T, KIND, DETAIL) do { std::string k_ = (KIND); if ((T).hit(k_)) (T).detail(k_, (DETAIL)); } while (0)
 std::string runDesc(const Run& L) {
     return std::string(stName(L.status)) + (L.exc.empty() ? "" : "(" + L.exc + ")") + " pos=" + itos(L.pos) + " units=[" + hexUnits(L.out, L.n) + "] sizes=[" + hexBytes(L.sz, L.n) + "]";
 }
@@ -320,7 +320,7 @@ void sweepOne(SweepCtx& c, const XMLByte* s, size_t n, const char* variant) {
     libDecode(c.t, s, n, n, c.mcMain, c.L, *c.B); c.T->runs++;
     if (c.L.status == L_EXC) c.T->exc[c.L.exc]++;
     const char* m = cmpDecode(c.R, c.L, s, n, c.k, c.judgeSizes);
-    if (m) c.T->mismatch(std::string(m) + ":" + (c.R.status == R_ERR ? c.R.cls : c.R.status == R_TRUNC ? "truncated" : "wellformed"),
+    if (m) XV_MIS(*c.T, std::string(m) + ":" + (c.R.status == R_ERR ? c.R.cls : c.R.status == R_TRUNC ? "truncated" : "wellformed"),
                          hexBytes(s, n) + "\t" + variant + " split=- maxChars=" + itos(c.mcMain) + "\texp=" + refDesc(c.R) + "\tobs=" + runDesc(c.L));
     if (!c.splits) return;
     size_t hi = c.splitHi < n ? c.splitHi : n - 1;
@@ -328,7 +328,7 @@ void sweepOne(SweepCtx& c, const XMLByte* s, size_t n, const char* variant) {
         for (size_t mc = 1; mc <= 4; mc++) {
             libDecode(c.t, s, n, sp, mc, c.L, *c.B); c.T->runs++;
             const char* m2 = cmpDecode(c.R, c.L, s, n, c.k, c.judgeSizes);
-            if (m2) c.T->mismatch(std::string(m2) + ":" + (c.R.status == R_ERR ? c.R.cls : c.R.status == R_TRUNC ? "truncated" : "wellformed") + ":split",
+            if (m2) XV_MIS(*c.T, std::string(m2) + ":" + (c.R.status == R_ERR ? c.R.cls : c.R.status == R_TRUNC ? "truncated" : "wellformed") + ":split",
                                   hexBytes(s, n) + "\t" + variant + " split=" + itos(sp) + " maxChars=" + itos(mc) + "\texp=" + refDesc(c.R) + "\tobs=" + runDesc(c.L));
         }
 }
@@ -347,6 +347,7 @@ void modeU8Sweep(const Case& cs) {
         XMLByte buf[128]; memset(buf, 'a', sizeof buf);
         static const XMLByte kPad[5] = { 'A', 'A', 'A', 'A', 'A' };
         std::vector<unsigned> tails;     // (b2<<8|b3) for len 4, b2 for len 3
+        std::vector<bool> seen; bool edges = cs.geti("edges", 1) != 0;
         for (long b0 = b0lo; b0 <= b0hi; b0++) {
             for (long b1 = (len >= 2 ? b1lo : 0); b1 <= (len >= 2 ? b1hi : 0); b1++) {
                 tails.clear();
@@ -354,8 +355,10 @@ void modeU8Sweep(const Case& cs) {
                 else if (len == 3) for (unsigned x = 0; x < 256; x++) tails.push_back(x);
                 else if (sample <= 0) for (unsigned x = 0; x < 65536; x++) tails.push_back(x);
                 else {
-                    for (size_t i = 0; i < sizeof kEdge; i++) for (size_t j = 0; j < sizeof kEdge; j++) tails.push_back(kEdge[i] << 8 | kEdge[j]);
-                    for (long i = 0; i < sample; i++) tails.push_back(rng.next() & 0xFFFF);
+                    // boundary pairs + `sample` random pairs, without repetition (every sequence of a sweep is distinct)
+                    seen.assign(65536, false);
+                    if (edges) for (size_t i = 0; i < sizeof kEdge; i++) for (size_t j = 0; j < sizeof kEdge; j++) { unsigned x = kEdge[i] << 8 | kEdge[j]; if (!seen[x]) { seen[x] = true; tails.push_back(x); } }
+                    for (long i = 0; i < sample; i++) { unsigned x = rng.next() & 0xFFFF; while (seen[x]) x = (x + 1) & 0xFFFF; seen[x] = true; tails.push_back(x); }
                 }
                 for (size_t ti = 0; ti < tails.size(); ti++) {
                     XMLByte* s = buf + pre;
@@ -392,21 +395,21 @@ void modeCpSweep(const Case& cs) {
             for (size_t i = 0; i < sizeof kMB / sizeof kMB[0]; i++) {
                 libEncode(t, u, nu, nu, kMB[i], XMLTranscoder::UnRep_Throw, L, B); T.runs++;
                 if (L.status != L_OK || L.nb != en || memcmp(L.bytes, eb, en) || L.pos != nu)
-                    T.mismatch(std::string("to:") + (L.status == L_EXC ? "rejected-representable" : L.status == L_OK ? "wrong-bytes" : stName(L.status)) + (cp >= 0x10000 ? ":supplementary" : ":bmp"),
+                    XV_MIS(T, std::string("to:") + (L.status == L_EXC ? "rejected-representable" : L.status == L_OK ? "wrong-bytes" : stName(L.status)) + (cp >= 0x10000 ? ":supplementary" : ":bmp"),
                                "U+" + hex4(cp) + "\tmaxBytes=" + itos(kMB[i]) + "\texp=" + hexBytes(eb, en) + "\tobs=" + stName(L.status) + (L.exc.empty() ? "" : "(" + L.exc + ")") + " eaten=" + itos(L.pos) + " bytes=" + hexBytes(L.bytes, L.nb));
             }
             bool can = false; try { can = t->canTranscodeTo((unsigned int)cp); } catch (...) {}
-            if (!can) { canBad++; T.mismatch("canto:false-for-representable", "U+" + hex4(cp) + "\t\texp=true\tobs=false"); }
+            if (!can) { canBad++; XV_MIS(T, "canto:false-for-representable", "U+" + hex4(cp) + "\t\texp=true\tobs=false"); }
             refDecode(k, 0, eb, en, R);
             for (size_t i = 0; i < sizeof kMC / sizeof kMC[0]; i++) {
                 libDecode(t, eb, en, en, kMC[i], L, B); T.runs++;
                 const char* m = cmpDecode(R, L, eb, en, k, true);
-                if (m) T.mismatch(std::string("from:") + m + (cp >= 0x10000 ? ":supplementary" : ":bmp"), "U+" + hex4(cp) + "\tbytes=" + hexBytes(eb, en) + " maxChars=" + itos(kMC[i]) + "\texp=" + refDesc(R) + "\tobs=" + runDesc(L));
+                if (m) XV_MIS(T, std::string("from:") + m + (cp >= 0x10000 ? ":supplementary" : ":bmp"), "U+" + hex4(cp) + "\tbytes=" + hexBytes(eb, en) + " maxChars=" + itos(kMC[i]) + "\texp=" + refDesc(R) + "\tobs=" + runDesc(L));
             }
             if (en > 1) for (size_t sp = 1; sp < en; sp++) {       // the code point split over two blocks
                 libDecode(t, eb, en, sp, 2, L, B); T.runs++;
                 const char* m = cmpDecode(R, L, eb, en, k, true);
-                if (m) T.mismatch(std::string("from:") + m + ":split", "U+" + hex4(cp) + "\tbytes=" + hexBytes(eb, en) + " split=" + itos(sp) + "\texp=" + refDesc(R) + "\tobs=" + runDesc(L));
+                if (m) XV_MIS(T, std::string("from:") + m + ":split", "U+" + hex4(cp) + "\tbytes=" + hexBytes(eb, en) + " split=" + itos(sp) + "\texp=" + refDesc(R) + "\tobs=" + runDesc(L));
             }
         }
         T.emit();
@@ -444,7 +447,7 @@ void modeSbSweep(const Case& cs) {
             if (!judged[b]) { undecided++; gOut.line("UND\tfrom\t" + hex2(b) + "\t" + runDesc(L)); continue; }
             refDecode(K_TABLE, table, s, 1, R);
             const char* m = cmpDecode(R, L, s, 1, K_TABLE, !icu);
-            if (m) T.mismatch(std::string("from:") + m, hex2(b) + "\t\texp=" + refDesc(R) + "\tobs=" + runDesc(L));
+            if (m) XV_MIS(T, std::string("from:") + m, hex2(b) + "\t\texp=" + refDesc(R) + "\tobs=" + runDesc(L));
         }
         // B. all judged+defined bytes as one string, every split x maxChars
         { XMLByte s[256]; size_t n = 0; for (int b = 0; b < 256; b++) if (judged[b] && table[b] >= 0) s[n++] = XMLByte(b);
@@ -454,7 +457,7 @@ void modeSbSweep(const Case& cs) {
               if (icu) { delete t; t = mk(enc); if (!t) break; }
               libDecode(t, s, n, sp, kMC[i], L, B); T.runs++;
               const char* m = cmpDecode(R, L, s, n, K_TABLE, !icu);
-              if (m) T.mismatch(std::string("from:") + m + ":string", "all-bytes\tsplit=" + itos(sp) + " maxChars=" + itos(kMC[i]) + "\texp=" + refDesc(R).substr(0, 60) + "\tobs=" + runDesc(L).substr(0, 200));
+              if (m) XV_MIS(T, std::string("from:") + m + ":string", "all-bytes\tsplit=" + itos(sp) + " maxChars=" + itos(kMC[i]) + "\texp=" + refDesc(R).substr(0, 60) + "\tobs=" + runDesc(L).substr(0, 200));
           } }
         if (!t) { gOut.line("NOTRANS\t" + enc); return; }
         // C. every BMP code point (+ a few supplementary) -> byte, both UnRep options; lone surrogates
@@ -472,29 +475,32 @@ void modeSbSweep(const Case& cs) {
             if (L.status == L_EXC) T.exc[L.exc]++;
             if (eb >= 0) {
                 if (L.status != L_OK || L.nb != 1 || L.bytes[0] != eb || L.pos != nu)
-                    T.mismatch(std::string("to:") + (L.status == L_EXC ? "rejected-representable" : L.status == L_OK ? "wrong-byte" : stName(L.status)) + cls,
+                    XV_MIS(T, std::string("to:") + (L.status == L_EXC ? "rejected-representable" : L.status == L_OK ? "wrong-byte" : stName(L.status)) + cls,
                                "U+" + hex4(c) + "\tthrow\texp=" + hex2(eb) + "\tobs=" + stName(L.status) + (L.exc.empty() ? "" : "(" + L.exc + ")") + " bytes=" + hexBytes(L.bytes, L.nb));
             } else {
                 // a lone high surrogate at the very end may also legitimately wait for its partner (stall)
                 bool okStall = sur && c < 0xDC00 && L.status == L_STALL;
                 if (L.status != L_EXC && !okStall)
-                    T.mismatch(std::string("to:unrepresentable-not-reported") + cls, "U+" + hex4(c) + "\tthrow\texp=exception\tobs=" + stName(L.status) + " bytes=" + hexBytes(L.bytes, L.nb));
+                    XV_MIS(T, std::string("to:unrepresentable-not-reported") + cls, "U+" + hex4(c) + "\tthrow\texp=exception\tobs=" + stName(L.status) + " bytes=" + hexBytes(L.bytes, L.nb));
             }
             if (icu) continue;
             libEncode(t, u, nu, nu, 16, XMLTranscoder::UnRep_RepChar, L, B); T.runs++;
             if (eb >= 0) {
                 if (L.status != L_OK || L.nb != 1 || L.bytes[0] != eb || L.pos != nu)
-                    T.mismatch(std::string("to:") + (L.status == L_EXC ? "rejected-representable" : L.status == L_OK ? "wrong-byte" : stName(L.status)) + cls,
+                    XV_MIS(T, std::string("to:") + (L.status == L_EXC ? "rejected-representable" : L.status == L_OK ? "wrong-byte" : stName(L.status)) + cls,
                                "U+" + hex4(c) + "\trepchar\texp=" + hex2(eb) + "\tobs=" + stName(L.status) + (L.exc.empty() ? "" : "(" + L.exc + ")") + " bytes=" + hexBytes(L.bytes, L.nb));
             } else {
                 bool okStall = sur && c < 0xDC00 && L.status == L_STALL;
                 if (okStall) continue;
                 if (L.status != L_OK || L.pos != nu || L.nb < 1 || L.nb > nu)
-                    T.mismatch(std::string("to:repchar-protocol") + cls, "U+" + hex4(c) + "\trepchar\texp=1.." + itos(nu) + " replacement byte(s), all units eaten\tobs=" + stName(L.status) + (L.exc.empty() ? "" : "(" + L.exc + ")") + " eaten=" + itos(L.pos) + " bytes=" + hexBytes(L.bytes, L.nb));
+                    XV_MIS(T, std::string("to:repchar-protocol") + cls, "U+" + hex4(c) + "\trepchar\texp=1.." + itos(nu) + " replacement byte(s), all units eaten\tobs=" + stName(L.status) + (L.exc.empty() ? "" : "(" + L.exc + ")") + " eaten=" + itos(L.pos) + " bytes=" + hexBytes(L.bytes, L.nb));
                 else for (size_t i = 0; i < L.nb; i++) repBytes[L.bytes[i]]++;
             }
         }
-        for (std::map<unsigned, unsigned long>::iterator i = repBytes.begin(); i != repBytes.end(); ++i) gOut.line("REP\t" + hex2(i->first) + "\t" + itos(i->second));
+        { // the replacement byte(s) used: the most frequent ones
+          std::vector<std::pair<unsigned long, unsigned> > rb; for (std::map<unsigned, unsigned long>::iterator i = repBytes.begin(); i != repBytes.end(); ++i) rb.push_back(std::make_pair(i->second, i->first));
+          std::sort(rb.rbegin(), rb.rend());
+          for (size_t i = 0; i < rb.size() && i < 2; i++) gOut.line("REP\t" + hex2(rb[i].second) + "\t" + itos(rb[i].first) + "\t" + itos((long long)rb.size())); }
         // D. canTranscodeTo over the whole code space
         unsigned long canT = 0, canF = 0;
         for (unsigned long cp = 0; cp < 0x110000; cp++) {
@@ -502,9 +508,9 @@ void modeSbSweep(const Case& cs) {
             bool sur = cp >= 0xD800 && cp < 0xE000;
             bool exp = !sur && inv[cp] >= 0;
             if (icu && !exp) continue;
-            bool can = false; try { can = t->canTranscodeTo((unsigned int)cp); } catch (...) { T.mismatch("canto:threw", "U+" + hex4(cp) + "\t\texp=bool\tobs=exception"); continue; }
+            bool can = false; try { can = t->canTranscodeTo((unsigned int)cp); } catch (...) { XV_MIS(T, "canto:threw", "U+" + hex4(cp) + "\t\texp=bool\tobs=exception"); continue; }
             T.runs++; (can ? canT : canF)++;
-            if (can != exp) T.mismatch(std::string("canto:") + (exp ? "false-for-representable" : "true-for-unrepresentable") + (cp == 0 ? ":nul" : sur ? ":lone-surrogate" : ""), "U+" + hex4(cp) + "\t\texp=" + (exp ? "true" : "false") + "\tobs=" + (can ? "true" : "false"));
+            if (can != exp) XV_MIS(T, std::string("canto:") + (exp ? "false-for-representable" : "true-for-unrepresentable") + (cp == 0 ? ":nul" : sur ? ":lone-surrogate" : cp >= 0x10000 ? ":supplementary" : ""), "U+" + hex4(cp) + "\t\texp=" + (exp ? "true" : "false") + "\tobs=" + (can ? "true" : "false"));
         }
         gOut.line("CAN\ttrue=" + itos(canT) + "\tfalse=" + itos(canF));
         // E. all representable code points as one string, several maxBytes and splits
@@ -514,7 +520,7 @@ void modeSbSweep(const Case& cs) {
           for (size_t sp = 0; sp <= n; sp += 5) for (size_t i = 0; i < 4; i++) {
               libEncode(t, u, n, sp, kMB[i], XMLTranscoder::UnRep_Throw, L, B); T.runs++;
               if (L.status != L_OK || L.nb != n || memcmp(L.bytes, eb, n) || L.pos != n)
-                  T.mismatch("to:string", "all-chars\tsplit=" + itos(sp) + " maxBytes=" + itos(kMB[i]) + "\texp=" + itos(n) + " bytes\tobs=" + stName(L.status) + (L.exc.empty() ? "" : "(" + L.exc + ")") + " eaten=" + itos(L.pos) + " nbytes=" + itos(L.nb));
+                  XV_MIS(T, "to:string", "all-chars\tsplit=" + itos(sp) + " maxBytes=" + itos(kMB[i]) + "\texp=" + itos(n) + " bytes\tobs=" + stName(L.status) + (L.exc.empty() ? "" : "(" + L.exc + ")") + " eaten=" + itos(L.pos) + " nbytes=" + itos(L.nb));
           } }
         gOut.line("UNDECIDED\t" + itos(undecided));
         T.emit();
@@ -556,19 +562,19 @@ void modeIcuRt(const Case& cs) {
             if (!te || !td) { delete te; delete td; gOut.line("NOTRANS\t" + enc); break; }
             libEncode(te, x.data(), x.size(), x.size(), BLOCK, XMLTranscoder::UnRep_Throw, E, B); T.runs++;
             if (E.status != L_OK) {
-                T.mismatch(std::string("rt:encode-") + stName(E.status), "U+" + hex4(x[0]) + "..\t\texp=ok (canTranscodeTo said yes)\tobs=" + stName(E.status) + (E.exc.empty() ? "" : "(" + E.exc + ")") + " eaten=" + itos(E.pos));
+                XV_MIS(T, std::string("rt:encode-") + stName(E.status), "U+" + hex4(x[0]) + "..\t\texp=ok (canTranscodeTo said yes)\tobs=" + stName(E.status) + (E.exc.empty() ? "" : "(" + E.exc + ")") + " eaten=" + itos(E.pos));
             } else if (E.nb <= CAPU) {
                 libDecode(td, E.bytes, E.nb, E.nb, BLOCK, D, B); T.runs++;
                 if (D.status == L_EXC) T.exc[D.exc]++;
                 if (D.status == L_BROKEN || D.n < xn || memcmp(D.out, x.data(), xn * sizeof(XMLCh)))
-                    T.mismatch("rt:decode-of-encode-differs", "U+" + hex4(x[0]) + "..\tbytes=" + hexBytes(E.bytes, E.nb > 48 ? 48 : E.nb) + "\texp=[" + hexUnits(x.data(), xn > 16 ? 16 : xn) + "]\tobs=" + runDesc(D).substr(0, 200));
+                    XV_MIS(T, "rt:decode-of-encode-differs", "U+" + hex4(x[0]) + "..\tbytes=" + hexBytes(E.bytes, E.nb > 48 ? 48 : E.nb) + "\texp=[" + hexUnits(x.data(), xn > 16 ? 16 : xn) + "]\tobs=" + runDesc(D).substr(0, 200));
                 else if (splitEvery > 0 && chunks % splitEvery == 0) {
                     for (size_t sp = 1; sp < E.nb; sp++) for (size_t mc = 1; mc <= 4; mc++) {
                         XMLTranscoder* t2 = mk(enc); if (!t2) break;
                         libDecode(t2, E.bytes, E.nb, sp, mc, D2, B); T.runs++;
                         delete t2;
                         if (D2.status != D.status || D2.n != D.n || memcmp(D2.out, D.out, D.n * sizeof(XMLCh)) || D2.pos != D.pos)
-                            T.mismatch("rt:split-variance", "U+" + hex4(x[0]) + "..\tbytes=" + hexBytes(E.bytes, E.nb > 48 ? 48 : E.nb) + " split=" + itos(sp) + " maxChars=" + itos(mc) + "\texp=" + runDesc(D).substr(0, 160) + "\tobs=" + runDesc(D2).substr(0, 160));
+                            XV_MIS(T, "rt:split-variance", "U+" + hex4(x[0]) + "..\tbytes=" + hexBytes(E.bytes, E.nb > 48 ? 48 : E.nb) + " split=" + itos(sp) + " maxChars=" + itos(mc) + "\texp=" + runDesc(D).substr(0, 160) + "\tobs=" + runDesc(D2).substr(0, 160));
                     }
                 }
             }
